@@ -130,11 +130,11 @@ def run(ctx):
     ctx.exhaustive = True
     ctx.notes["token_string_max_tokens"] = N
     rng = ctx.rng
-    for _ in range(ctx.share(20000 if ctx.quick else 300000)):
+    for _ in range(ctx.share(20000 if ctx.quick else 1500000)):
         s = "".join(rng.choice(TOKENS) for _ in range(rng.randint(4, 9)))
         run_case(ctx, {"string": s})
         ctx.count("token_strings_random")
-    for _ in range(ctx.share(15000 if ctx.quick else 400000)):
+    for _ in range(ctx.share(15000 if ctx.quick else 2000000)):
         pieces = []
         exact = True
         for _ in range(rng.randint(1, 7)):
